@@ -10,7 +10,7 @@
      []T                     -> list T'
      int                     -> Z
      mutable locals          -> threaded through as a tuple [S] (the variables in scope that are re-assigned)        *)
-From V Require Import Base Time Types.
+From V Require Import Base Time Types Profile.
 
 (* value or panic (nil dereference) *)
 Inductive pm (A : Type) := PVal (a : A) | PPanic.
@@ -60,6 +60,14 @@ Definition run_fn {R} (c : ctl R unit unit) : pm R :=
 Definition res_of_err (e : option err) : res unit := match e with None => Ok tt | Some x => Err x end.
 Definition err_of_res {A} (r : res A) : option err := match r with Ok _ => None | Err e => Some e end.
 Definition val_of_res {A} (r : res A) : option A := match r with Ok a => Some a | Err _ => None end.
+(* the pointer result of a function returning ( *T, error ): nil beside an error *)
+Definition ptr_of_res {A} (r : res (option A)) : option A := match r with Ok o => o | Err _ => None end.
+Definition res_some {A} (r : res A) : res (option A) := match r with Ok a => Ok (Some a) | Err e => Err e end.
+
+(* s[i]: out of range (negative included) panics *)
+Definition zindex {A} (l : list A) (i : Z) : option A := if (i <? 0)%Z then None else nth_error l (Z.to_nat i).
+(* the counter values of  for i := 0; i < n; i++ *)
+Definition zrange (n : Z) : list Z := map Z.of_nat (seq 0 (Z.to_nat n)).
 
 Definition is_nil {A} (o : option A) : bool := match o with None => true | Some _ => false end.
 Definition opt_of_bool (b : bool) : option unit := if b then Some tt else None.
@@ -96,3 +104,47 @@ Definition set_pr_count (v : Z) (p : proxy_restriction) : proxy_restriction :=
 Definition zero_warning_info : warning_info :=
   {| w_one_time_use := false; w_proxy_restriction := None; w_not_in_audience := false; w_invalid_time := false |}.
 Definition zero_proxy_restriction : proxy_restriction := {| pr_count := 0; pr_audience := [] |}.
+
+(* maps (saml2.Values): option = nil-able, association list kept sorted by Profile.values_set *)
+Definition zero_attribute : attribute := {| at_friendly_name := ""; at_name := ""; at_name_format := ""; at_values := [] |}.
+Definition values_lookup2 (m : option (list (string * attribute))) (k : string) : attribute * bool :=
+  match m with
+  | None => (zero_attribute, false)
+  | Some l => match values_lookup k l with Some a => (a, true) | None => (zero_attribute, false) end
+  end.
+
+Definition zero_assertion_info : assertion_info :=
+  {| ai_name_id := ""; ai_values := []; ai_warning_info := zero_warning_info; ai_session_index := "";
+     ai_authn_instant := None; ai_session_not_on_or_after := None; ai_assertions := []; ai_response_signature_validated := false |}.
+Definition set_ai_name_id v (i : assertion_info) : assertion_info :=
+  {| ai_name_id := v; ai_values := ai_values i; ai_warning_info := ai_warning_info i; ai_session_index := ai_session_index i;
+     ai_authn_instant := ai_authn_instant i; ai_session_not_on_or_after := ai_session_not_on_or_after i;
+     ai_assertions := ai_assertions i; ai_response_signature_validated := ai_response_signature_validated i |}.
+Definition set_ai_values v (i : assertion_info) : assertion_info :=
+  {| ai_name_id := ai_name_id i; ai_values := v; ai_warning_info := ai_warning_info i; ai_session_index := ai_session_index i;
+     ai_authn_instant := ai_authn_instant i; ai_session_not_on_or_after := ai_session_not_on_or_after i;
+     ai_assertions := ai_assertions i; ai_response_signature_validated := ai_response_signature_validated i |}.
+Definition set_ai_warning_info v (i : assertion_info) : assertion_info :=
+  {| ai_name_id := ai_name_id i; ai_values := ai_values i; ai_warning_info := v; ai_session_index := ai_session_index i;
+     ai_authn_instant := ai_authn_instant i; ai_session_not_on_or_after := ai_session_not_on_or_after i;
+     ai_assertions := ai_assertions i; ai_response_signature_validated := ai_response_signature_validated i |}.
+Definition set_ai_session_index v (i : assertion_info) : assertion_info :=
+  {| ai_name_id := ai_name_id i; ai_values := ai_values i; ai_warning_info := ai_warning_info i; ai_session_index := v;
+     ai_authn_instant := ai_authn_instant i; ai_session_not_on_or_after := ai_session_not_on_or_after i;
+     ai_assertions := ai_assertions i; ai_response_signature_validated := ai_response_signature_validated i |}.
+Definition set_ai_authn_instant v (i : assertion_info) : assertion_info :=
+  {| ai_name_id := ai_name_id i; ai_values := ai_values i; ai_warning_info := ai_warning_info i; ai_session_index := ai_session_index i;
+     ai_authn_instant := v; ai_session_not_on_or_after := ai_session_not_on_or_after i;
+     ai_assertions := ai_assertions i; ai_response_signature_validated := ai_response_signature_validated i |}.
+Definition set_ai_session_not_on_or_after v (i : assertion_info) : assertion_info :=
+  {| ai_name_id := ai_name_id i; ai_values := ai_values i; ai_warning_info := ai_warning_info i; ai_session_index := ai_session_index i;
+     ai_authn_instant := ai_authn_instant i; ai_session_not_on_or_after := v;
+     ai_assertions := ai_assertions i; ai_response_signature_validated := ai_response_signature_validated i |}.
+Definition set_ai_assertions v (i : assertion_info) : assertion_info :=
+  {| ai_name_id := ai_name_id i; ai_values := ai_values i; ai_warning_info := ai_warning_info i; ai_session_index := ai_session_index i;
+     ai_authn_instant := ai_authn_instant i; ai_session_not_on_or_after := ai_session_not_on_or_after i;
+     ai_assertions := v; ai_response_signature_validated := ai_response_signature_validated i |}.
+Definition set_ai_response_signature_validated v (i : assertion_info) : assertion_info :=
+  {| ai_name_id := ai_name_id i; ai_values := ai_values i; ai_warning_info := ai_warning_info i; ai_session_index := ai_session_index i;
+     ai_authn_instant := ai_authn_instant i; ai_session_not_on_or_after := ai_session_not_on_or_after i;
+     ai_assertions := ai_assertions i; ai_response_signature_validated := v |}.
